@@ -491,7 +491,7 @@ func TestVerif_C07_ExpiryEndToEnd(t *testing.T) {
 					if px > startMs {
 						invalidated := false
 						for _, w := range run.Writes {
-							if (w.Key == r.Key || w.Kind == "flushall") && w.AtUs > at && w.AtUs <= r.StartUs {
+							if (w.Key == r.Key || w.Kind == "flushall") && w.AtUs > at && w.AtUs < r.StartUs {
 								if w.Kind == "expire" {
 									// only an expiry of the version that is still current removes the key
 									before := cTruth(run.Writes, r.Key, w.AtUs, w.AtUs-1)
